@@ -793,6 +793,20 @@ def r05_18(ctx, run, rule='R05.18', floor=3):
         ps, capped = explore(b)
         loc = f'{b.file}:{b.line}'
         verdicts = []
+        # which cursor fields are entry-word positions (read_u32(value, F)) and which are payload starts (value[F .. F + len])
+        entry_fields, payload_fields = set(), set()
+        for q in ps:
+            for e in q.calls():
+                if called(e[1], 'read_u32') and len(e[2]) == 2:
+                    a_ = deref_all(strip_casts(e[2][1]))
+                    if a_[0] == 'field':
+                        entry_fields.add(a_[2])
+                elif called(e[1], 'Index::index', 'index::index') and len(e[2]) == 2:
+                    r_ = deref_all(e[2][1])
+                    if agg_variant(r_) and r_[1][1].split('::')[-1] in ('Range', 'RangeFrom') and r_[2]:
+                        a_ = deref_all(strip_casts(r_[2][0]))
+                        if a_[0] == 'field':
+                            payload_fields.add(a_[2])
         for q in ps:
             if q.end[0] != 'return' or q.ret is None:
                 continue
@@ -830,6 +844,10 @@ def r05_18(ctx, run, rule='R05.18', floor=3):
                         rel = {'>=': '<', '>': '<=', '<=': '>', '<': '>=', '==': '!='}[rel]
                     if rel == '>':
                         verdicts.append(('ok', f'{names[0]} beyond the end of the buffer (truncated input only)'))
+                    elif rel in ('>=', '==') and names[0] in entry_fields and names[0] not in payload_fields:
+                        verdicts.append(('ok', f'{names[0]} (an entry-word position) at or beyond the end of the buffer: no room for the 4-byte word (truncated input only)'))
+                    elif rel in ('>=', '==') and names[0] not in payload_fields:
+                        verdicts.append(('und', f'None under {names[0]} {rel} len, a field this rule does not see used as a payload start'))
                     elif rel in ('>=', '=='):
                         verdicts.append(('bad', f'None is returned when {names[0]} {rel} the buffer length: a last element with an empty payload (true, false, null, "", an empty '
                                                 'container word) starts exactly at the end of the buffer and is dropped'))
